@@ -262,6 +262,8 @@ def _body_interp(torch, zoo, rec, seed, tier):
 # unit: sparse construction / conversion / indexing / repetition
 
 def _body_sparse(torch, zoo, rec, seed, tier):
+    import math
+
     from linear_operator.utils import sparse as S
 
     # make_sparse_from_indices_and_values: result (*b, num_rows, n_targets), M[idx[c,k], c] += val[c,k]
@@ -344,6 +346,87 @@ def _body_sparse(torch, zoo, rec, seed, tier):
                             rec.check(grp, lab, False, f"result is not a valid sparse tensor: {rd}")
                         elif ok:
                             rec.check(grp, lab, tuple(rd.shape) == tuple(exp.shape) and torch.equal(rd.to(dt), exp), f"got {rd.tolist()} expected {exp.tolist()}")
+
+    # sparse_getitem on sparse tensors that store a coordinate more than once (uncoalesced COO: the dense definition is the SUM of
+    # the stored entries; this is what make_sparse_from_indices_and_values returns for duplicate interpolation indices).
+    # Values are small dyadic rationals, so every sum is exact in float32/float64 and the comparison can be exact.
+    def dyadic(g, *sh, dt):
+        v = torch.randint(1, 17, sh, generator=g).to(dt) / 4
+        return v * (torch.randint(0, 2, sh, generator=g) * 2 - 1).to(dt)
+
+    def all_indices(sh):
+        """every int / slice / mixed index of a 1-d or 2-d shape, by family"""
+        def ints(n):
+            return list(range(n)) + [-1, -n]
+
+        def slices(n):
+            return [slice(None), slice(0, 1), slice(1, n), slice(n - 1, n), slice(None, -1)] if n > 1 else [slice(None), slice(0, 1)]
+        if len(sh) == 1:
+            return [("all_int", (i,)) for i in ints(sh[0])] + [("slice", (s,)) for s in slices(sh[0])]
+        out = [("all_int", (i, j)) for i in ints(sh[0]) for j in ints(sh[1])]
+        out += [("partial_int", (i,)) for i in ints(sh[0])]
+        out += [("slice", (s,)) for s in slices(sh[0])] + [("slice", (s, t)) for s in slices(sh[0]) for t in slices(sh[1])]
+        out += [("mixed", (i, t)) for i in ints(sh[0]) for t in slices(sh[1])] + [("mixed", (s, j)) for s in slices(sh[0]) for j in ints(sh[1])]
+        return out
+
+    def getitem_vs_dense(src, lab0, make, exp_dense, dt):
+        sh = tuple(exp_dense.shape)
+        seen = set()
+        for fam_, ix in all_indices(sh):
+            if (fam_, repr(ix)) in seen:
+                continue
+            seen.add((fam_, repr(ix)))
+            grp = f"sparse_getitem/{src}_{len(sh)}d_{fam_}"
+            lab = f"{lab0}|idx={ix}"
+            exp = exp_dense[ix]
+            ok, res = rec.guard(grp, lab, lambda: S.sparse_getitem(make(), ix if len(ix) > 1 else ix[0]))
+            if ok:
+                ok, rd = rec.guard(grp, lab + "|densify", lambda: _sdense(res) if torch.is_tensor(res) and res.is_sparse else torch.as_tensor(res, dtype=dt))
+            if ok and isinstance(rd, str):
+                rec.check(grp, lab, False, f"result is not a valid sparse tensor: {rd}")
+            elif ok:
+                rec.check(grp, lab, tuple(rd.shape) == tuple(exp.shape) and torch.equal(rd.to(dt), exp), f"got {rd.tolist()} expected {exp.tolist()}")
+
+    hand = [  # (name, size, coordinates (one row per dim), note)
+        ("1d_dup", (5,), [[1, 3, 1, 4, 3, 3]]),
+        ("1d_all_same", (3,), [[2, 2, 2, 2]]),
+        ("1d_size1", (1,), [[0, 0]]),
+        ("2d_dup", (4, 3), [[0, 1, 1, 3, 1, 3, 2], [2, 0, 0, 1, 0, 1, 2]]),
+        ("2d_dup_apart", (3, 4), [[2, 0, 1, 2, 0, 2], [3, 1, 1, 3, 1, 0]]),
+        ("2d_row_col_1", (1, 3), [[0, 0, 0, 0], [1, 2, 1, 1]]),
+        ("2d_1x1", (1, 1), [[0, 0, 0], [0, 0, 0]]),
+    ]
+    for dt, dn in _dts(torch):
+        for name, sh, coords in hand:
+            g = zoo.gen(5700 + sum(sh) + len(coords[0]) + seed)
+            ci = torch.tensor(coords, dtype=torch.long)
+            for vk in ("dyadic", "cancel_first_pair", "stored_zero_first"):
+                v = dyadic(g, ci.shape[1], dt=dt)
+                if vk == "cancel_first_pair":  # two stored entries of one coordinate that sum to zero
+                    dup = [k for k in range(1, ci.shape[1]) if bool((ci[:, k] == ci[:, 0]).all())]
+                    if not dup:
+                        continue
+                    v[dup[0]] = -v[0]
+                elif vk == "stored_zero_first":  # an explicitly stored zero in front of the other entries of its coordinate
+                    v[0] = 0
+                exp = torch.zeros(*sh, dtype=dt).index_put_(tuple(ci), v, accumulate=True)
+                getitem_vs_dense("uncoalesced", f"{dn}|{name}|shape={sh}|{vk}", lambda: torch.sparse_coo_tensor(ci.clone(), v.clone(), sh), exp, dt)
+        for sh in [(4,), (2, 4), (3, 3)]:  # seeded random coordinates, about two stored entries per position
+            g = zoo.gen(5800 + sum(sh) * 3 + len(sh) + seed)
+            nnz = 2 * math.prod(sh)
+            ci = torch.stack([torch.randint(0, s_, (nnz,), generator=g) for s_ in sh])
+            v = dyadic(g, nnz, dt=dt)
+            exp = torch.zeros(*sh, dtype=dt).index_put_(tuple(ci), v, accumulate=True)
+            getitem_vs_dense("uncoalesced", f"{dn}|random|shape={sh}|nnz={nnz}", lambda: torch.sparse_coo_tensor(ci.clone(), v.clone(), sh), exp, dt)
+        # W^T built by make_sparse_from_indices_and_values from interpolation indices with duplicates inside a row
+        for name, nb, ii in [("dup_in_row", 6, [[2, 2, 3], [0, 1, 1], [4, 4, 4], [5, 0, 5]]), ("single_base_point", 1, [[0, 0], [0, 0], [0, 0]]),
+                             ("one_target", 3, [[1, 1, 1, 2]]), ("random", 4, None)]:
+            g = zoo.gen(5900 + nb + seed)
+            ii = torch.tensor(ii, dtype=torch.long) if ii is not None else torch.randint(0, nb, (5, 3), generator=g)
+            vv = dyadic(g, *ii.shape, dt=dt)
+            exp = zoo.interp_matrix(ii, vv, nb).mT.contiguous()
+            getitem_vs_dense("interp_dupidx", f"{dn}|{name}|targets={ii.shape[0]}|width={ii.shape[1]}|base={nb}",
+                             lambda: S.make_sparse_from_indices_and_values(ii.clone(), vv.clone(), nb), exp, dt)
 
     # sparse_repeat == dense.repeat
     rep_cases = [
@@ -701,6 +784,9 @@ RTC_META = {
                 "matrix rhs with p in {1,3}, vector rhs; interpolation rows {1,3,5} x base {1,2,4} x width {1,2,3} x batch () (2,) (1,) (2,3) x "
                 "{random, duplicate indices, zero values, single base point} x rhs {vector, n x 1, n x 3, batched, size-1 batch, extra batch}; "
                 "sparse: construction incl. all-zero, to_sparse 1-4 d, sparse_getitem 1-d/2-d x {int, slice, int+slice, empty result, empty tensor, negative int}, "
+                "sparse_getitem on uncoalesced tensors (7 hand-made coordinate lists with repeated coordinates x {dyadic values, a cancelling pair, a stored zero}, "
+                "3 random ones with 2 entries per position, 4 make_sparse_from_indices_and_values results from duplicate interpolation indices) x every "
+                "all-int / partial-int / slice / mixed index of the shape incl. negative ints, against the dense sum-of-entries definition, "
                 "sparse_repeat (size-1 dims / general); dsmm forward+gradient for 13 (sparse batch, dense batch) broadcasting patterns x 4 sizes x "
                 "{random, empty, dense, one empty member}; permutations full/partial/single x 16 batch patterns x tensor / operator matrix; "
                 "stable_qr / stable_pinverse tall/square/fat x batch x {full rank, exactly deficient, nearly deficient, zero column}; "
